@@ -647,7 +647,14 @@ Section MediatorProofs.
   }.
 
   Lemma R_init : R (m_init OS) (s_init OS).
-  Proof. constructor; simpl; intuition. Qed.
+  Proof.
+    constructor; simpl.
+    - reflexivity.
+    - intros e. split; intro Hc; exact Hc.
+    - intros h. reflexivity.
+    - intros h _. split; reflexivity.
+    - intros h [].
+  Qed.
 
   Lemma map_fst_mk : forall hist0 (run : list H), map fst (map (mk hist0) run) = run.
   Proof. intros hist0 run. induction run; simpl; congruence. Qed.
